@@ -15,6 +15,16 @@ CHECKS = {
    note="Trusts reference arithmetic; coefficient alphabets (7-16 members) instead of all coefficients.",
    technique="bounded-exhaustive enumeration of operand tuples against a reference model",
    engine="fields", design_ref="§4 C08"),
+ "C09": dict(category="exploration",
+   text="For three base fields and quadratic extensions: every monomial c*x^j of every size 2^1..2^11/12 (all j up to n=256/512, a covering set beyond) through evaluate/interpolate/infer_degree and coset evaluation for offsets {1, generator, seeded} x blowups up to 128, expected values in closed form - linearity makes the monomial basis decisive for every polynomial of that size; dense polynomials vs Horner; the segmented RowMatrix LDE for every column count 1..40 and {63,64,65,127,128,129,254,255} x segment widths {1,2,8,16}, every cell vs Horner; ColMatrix variants; row-commitment order.",
+   note="Trusts reference arithmetic and the linearity argument; the domain generator is the library's root of unity whose order C07 checks.",
+   technique="bounded-exhaustive enumeration over (size, basis polynomial, offset, blowup, shape) against closed-form / Horner reference",
+   engine="polyfft", design_ref="§4 C09"),
+ "C20": dict(category="exploration",
+   text="All 781 polynomials of length 0..4 over a 5-member alphabet, all ordered pairs for add/sub/mul/div (q*d+r=a), synthetic division for every (a,b), every root list of length <= 3, interpolation on every point set of size 1..5 from 7 points, batch inversion on all vectors of length <= 6 over 4 values and with a zero at every position of vectors around the 1024 threshold, power series incl. n=0, accumulation helpers; five element types.",
+   note="Documented panics (division by higher-degree/zero divisor, syn_div with a=0 or b=0, empty mul operands) are excluded by an explicit precondition predicate.",
+   technique="bounded-exhaustive enumeration of small polynomials/vectors against a schoolbook reference",
+   engine="polyfft", design_ref="§4 C20"),
  "C10": dict(category="exploration",
    text="All trees of 2..16 leaves x all non-empty position subsets (65535 for 16 leaves) x all orders of small subsets, plus structured families on trees up to 1024 leaves: honest single/batch openings verify, decompress into exactly the naive paths and re-compress to the same opening; for every opening of the exhaustive trees every single-element mutation and every shape mutation (node/leaf/vector added, removed, duplicated, moved; depth -1,+1,0,62..65,255; positions replaced, out of range, duplicated, added, dropped, swapped, empty, 256; wrong root) must be answered by an error, never Ok and never a panic; single paths likewise. Six hashers.",
    note="Assumes collision-freeness on the harness' distinct leaves; the canonical opening is prove_batch's value, validated by naive recomputation.",
@@ -78,6 +88,7 @@ def main():
         "engines": [
             {"name": "kit", "path": "harness/kit", "serves_properties": ALL, "kind_free_text": "bounded-exhaustive explorer with watchdog (E1), level-synchronous explicit-state BFS (E2), evidence/replay/known-findings, reference arithmetic"},
             {"name": "fields", "path": "harness/bins/fields", "serves_properties": ["C07", "C08"], "kind_free_text": "alphabet products + representation reachability"},
+            {"name": "polyfft", "path": "harness/bins/polyfft", "serves_properties": ["C09", "C20"], "kind_free_text": "monomial-basis FFT checks, segmented LDE, polynomial utilities"},
             {"name": "merkle", "path": "harness/bins/merkle", "serves_properties": ["C10"], "kind_free_text": "all subsets x all mutations of Merkle openings"},
             {"name": "hashes", "path": "harness/bins/hashes", "serves_properties": ["C11", "C19"], "kind_free_text": "reference sponge/coin; BFS over coin histories"},
             {"name": "serial", "path": "harness/bins/serial", "serves_properties": ["C12", "C13"], "kind_free_text": "round-trip enumeration over readers; BFS over reader histories"},
